@@ -34,8 +34,7 @@ func TestC35Conc(t *testing.T) {
 		nClients := []int{1, 2, 3, 4, 5, 6, 8, 10, 12, 16}[uni(rt, "clients", 10)]
 		R := []int{12, 23, 32, 71}[weighted(rt, "tableClass", 9, 8, 2, 1)]
 		found := rapid.Bool().Draw(rt, "clientFoundRows")
-		st.Excluded(kfTemporalDecimals)
-		d := drawDataset(rt, R, false)
+		d := drawSearchDataset(rt, st, R)
 		e := newEnv(found, rapid.Uint64().Draw(rt, "vseed"))
 		e.multi = rapid.Bool().Draw(rt, "multiStatements")
 		defer e.close()
